@@ -3,6 +3,7 @@ package main
 // Path exploration: stateless DFS by re-execution, decision logs, solver sessions.
 
 import (
+	"encoding/hex"
 	"runtime/debug"
 	"fmt"
 	"os"
@@ -32,9 +33,45 @@ type Violation struct {
 	Known   string            `json:"known,omitempty"`
 	Inputs  map[string]string `json:"inputs"` // name -> hex / decimal
 	Choices map[string]int    `json:"choices"`
-	Pos     string            `json:"pos,omitempty"`
-	Path    string            `json:"path,omitempty"`
-	weight  int
+	// Fns: for every uninterpreted function (zzverif.Fn) the argument/result pairs of the model, hex encoded; the
+	// native zzverif.Fn returns these results, so that harness hooks can impose the model's verdicts on the real code
+	Fns    map[string][][2]string `json:"fns,omitempty"`
+	Pos    string                 `json:"pos,omitempty"`
+	Path   string                 `json:"path,omitempty"`
+	weight int
+}
+
+// modelFns evaluates the argument and result bytes of every zzverif.Fn application under the model.
+func (r *Run) modelFns(m map[string]uint64) map[string][][2]string {
+	var out map[string][][2]string
+	memo := map[int]uint64{}
+	eval := func(ts []*Term) (string, bool) {
+		b := make([]byte, len(ts))
+		for i, t := range ts {
+			v, ok := evalTerm(t, m, memo)
+			if !ok {
+				return "", false
+			}
+			b[i] = byte(v)
+		}
+		return hex.EncodeToString(b), true
+	}
+	for _, d := range r.digests {
+		if !strings.HasPrefix(d.alg, "fn:") {
+			continue
+		}
+		in, ok1 := eval(d.stream)
+		res, ok2 := eval(d.out)
+		if !ok1 || !ok2 {
+			continue
+		}
+		name := d.alg[3:strings.LastIndex(d.alg, ":")]
+		if out == nil {
+			out = map[string][][2]string{}
+		}
+		out[name] = append(out[name], [2]string{in, res})
+	}
+	return out
 }
 
 type inputVar struct {
@@ -614,7 +651,7 @@ func (r *Run) recordViolation(label, msg string, m map[string]uint64) {
 	if r.lastPanic != "" {
 		msg += " (last Go panic on this path: " + r.lastPanic + ")"
 	}
-	v := &Violation{Harness: r.h.name, Label: label, Msg: msg, Known: r.knownCtx, Inputs: r.modelInputs(m), Choices: copyChoices(r.choices), Pos: r.curPos(), Path: r.pathString()}
+	v := &Violation{Harness: r.h.name, Label: label, Msg: msg, Known: r.knownCtx, Inputs: r.modelInputs(m), Choices: copyChoices(r.choices), Fns: r.modelFns(m), Pos: r.curPos(), Path: r.pathString()}
 	r.h.mu.Lock()
 	if _, have := r.h.violations[key]; !have {
 		r.h.violations[key] = v
@@ -842,7 +879,7 @@ func (r *Run) violationCondW(label, msg string, cond *Term, weight int) bool {
 	if r.lastPanic != "" {
 		msg += " (last Go panic on this path: " + r.lastPanic + ")"
 	}
-	v := &Violation{Harness: r.h.name, Label: label, Msg: msg, Known: r.knownCtx, Inputs: r.modelInputs(m), Choices: copyChoices(r.choices), Pos: r.curPos(), Path: r.pathString()}
+	v := &Violation{Harness: r.h.name, Label: label, Msg: msg, Known: r.knownCtx, Inputs: r.modelInputs(m), Choices: copyChoices(r.choices), Fns: r.modelFns(m), Pos: r.curPos(), Path: r.pathString()}
 	v.weight = weight
 	r.h.mu.Lock()
 	if old, have := r.h.violations[key]; !have || old.weight < weight {
